@@ -205,3 +205,76 @@ def gen_case(seed, idx, market_params=None, script_params=None, n_markets=(1, 1)
     if event_processing:
         case["event_processing"] = True
     return case, snaps_by_market
+
+
+# -------------------------------------------------------------------------------------------
+# API-usage variants: the same requests made the way real strategies also make them
+# -------------------------------------------------------------------------------------------
+
+USAGE_DEFAULTS = dict(
+    p_batch=0.0,  # requests of one step go through one explicit transaction, with t.execute() calls in between
+    p_reoffer=0.0,  # an order object is offered again later (after a refusal, or although it was accepted)
+    p_reoffer_same_step=0.0,  # ... in the same callback, while the first offer is still in flight
+    p_force_reoffer=0.3,  # share of the re-offers made with force=True
+    p_hold=0.0,  # a transaction object is taken early and used (and executed) in later updates
+    p_execute_false=0.0,  # an order is filed in the blotter with execute=False and never sent
+    p_trade_ctx_raise=0.0,  # requests wrapped in `with trade:` one of which raises out of the block
+    p_clear_context=0.0,  # market.context rebuilt by the strategy
+    p_on_close=0.0,  # requests on a sibling market made from process_closed_market
+)
+
+
+def usage_variants(case, snaps_by_market, rng, **opts):
+    p = dict(USAGE_DEFAULTS)
+    p.update(opts)
+    mids = list(snaps_by_market)
+    for st in case["strategies"]:
+        acts = list(st["actions"])
+        extra = []
+        for a in acts:
+            if a["op"] != "place":
+                continue
+            if rng.random() < p["p_execute_false"]:
+                a["execute"] = False
+            if rng.random() < p["p_reoffer"]:
+                extra.append(dict(a, at=a["at"] + rng.randint(1, 5), reuse=True, force=rng.random() < p["p_force_reoffer"]))
+            if rng.random() < p["p_reoffer_same_step"]:
+                extra.append(dict(a, at=a["at"] + 1, reuse=True, force=rng.random() < p["p_force_reoffer"], cb="orders") if rng.random() < 0.5 else dict(a, reuse=True, force=False))
+            if rng.random() < p["p_trade_ctx_raise"]:
+                extra.append({"m": a["m"], "at": a["at"] + rng.randint(1, 4), "op": "trade_ctx_raise", "ref": a["ref"]})
+        acts += extra
+        for m in mids:
+            n = len(snaps_by_market[m])
+            if n > 4 and rng.random() < p["p_clear_context"]:
+                for _ in range(rng.randint(1, 2)):
+                    acts.append({"m": m, "at": rng.randrange(1, n - 1), "op": "clear_context"})
+        if rng.random() < p["p_hold"]:
+            m = rng.choice(mids)
+            acts.append({"m": m, "at": 0, "op": "hold_open"})
+            for i, a in enumerate(acts):
+                if a["m"] == m and a["op"] in ("place", "cancel", "update", "replace") and a.get("cb") is None and not a.get("via") and a["at"] > 0 and rng.random() < 0.6:
+                    acts[i] = {"m": m, "at": a["at"], "op": "held", "items": [a]}
+        if len(mids) > 1 and rng.random() < p["p_on_close"]:
+            a_, b_ = rng.sample(mids, 2)
+            own = [x for x in acts if x["m"] == b_ and x["op"] == "place"]
+            if own:
+                src = rng.choice(own)
+                acts.append({"m": a_, "cb": "closed", "target": b_, "op": "cancel", "ref": src["ref"], "at": 10**6})
+                acts.append(dict(src, m=a_, cb="closed", target=b_, ref=src["ref"] + "_oc", at=10**6))
+        acts.sort(key=lambda x: x["at"])
+        if p["p_batch"]:
+            by_step = {}
+            for a in acts:
+                if a.get("cb") or a.get("via") or a["op"] not in ("place", "cancel", "update", "replace"):
+                    by_step.setdefault(("solo", id(a)), []).append(a)
+                else:
+                    by_step.setdefault((a["m"], a["at"]), []).append(a)
+            out = []
+            for key, items in by_step.items():
+                if key[0] != "solo" and len(items) > 1 and rng.random() < p["p_batch"]:
+                    out.append({"m": key[0], "at": key[1], "op": "batch", "items": items, "execute_after": sorted(rng.sample(range(len(items)), rng.randint(0, min(2, len(items)))))})
+                else:
+                    out += items
+            acts = sorted(out, key=lambda x: x["at"])
+        st["actions"] = acts
+    return case
